@@ -256,74 +256,13 @@ def r3(ctx, fi):
 # R4: the duct mesh tiles the outer perimeter
 
 def r4(ctx):
-    from . import _hexgeom as H
-    from ..poly import Rat, from_ast
-    c = Rat.const
-    fi = ctx.repo.func('region_rodded', 'RoddedRegion.calculate_xbnds')
-    dx = U.single_def(fi.node, 'dx')
-    if dx is None:
-        raise AnalysisError('calculate_xbnds: element width table')
-    lst = dx.args[0] if isinstance(dx, ast.Call) and dx.args else dx
-    if not (isinstance(lst, (ast.List, ast.Tuple)) and len(lst.elts) == 2):
-        raise AnalysisError('calculate_xbnds: element width table shape')
-    last = Rat.sym('last')
-
-    def idx(e):
-        v = const(e)
-        if isinstance(e, ast.UnaryOp) and isinstance(e.op, ast.USub) and \
-                const(e.operand) == 1:
-            return last
-        if isinstance(v, int):
-            return c(v)
-        if _s(e) in ('self.n_duct - 1', 'len(self.duct_ftf) - 1'):
-            return last
-        raise AnalysisError('calculate_xbnds: index %s' % _s(e))
-
-    def conv(e):
-        atoms = {'self.pin_pitch': 'P', 'np.sqrt(3)': 'r3', '_sqrt3': 'r3'}
-        subs = {}
-        for n in ast.walk(e):
-            if isinstance(n, ast.Subscript):
-                base, keys, ix = H.Geo.split(n)
-                if base == 'self.d' and keys == ('wcorner',) and len(ix) == 2:
-                    nm = 'WC%d' % len(subs)
-                    atoms[_s(n)] = nm
-                    f = const(ix[1])
-                    if f == -1:
-                        f = 1
-                    subs[nm] = H.wcorner_cf(idx(ix[0]), int(f))
-                elif base == 'self.duct_ftf' and not keys and len(ix) == 2:
-                    nm = 'FF%d' % len(subs)
-                    atoms[_s(n)] = nm
-                    f = const(ix[1])
-                    subs[nm] = H.F(idx(ix[0]), 1 if f == -1 else int(f))
-        r = from_ast(e, atoms, auto=True)
-        for nm, v in subs.items():
-            if nm in r.n.symbols() | r.d.symbols():
-                r = r._subs_rat(nm, v)
-        return r
-    edge, corner = conv(lst.elts[0]), conv(lst.elts[1])
-    ctx.require(edge.equals(H.P_), 'C10.R4', fi, lst.elts[0],
-                'edge duct elements are one pin pitch wide',
-                key=fi.full + ' | edge width')
-    ends = [st for t, st in U.stores(fi.node)
-            if isinstance(t, ast.Subscript) and _s(t.value) == 'x_bnds'
-            and _s(t.slice) == '-1']
-    if len(ends) != 1:
-        raise AnalysisError('calculate_xbnds: end of the walk')
-    end = conv(ends[0].value)
-    total = c(6) * ((H.N - c(1)) * edge + corner)
-    ctx.require(H.is_zero(total - end), 'C10.R4', fi, lst.elts[1],
-                'six sides of (n_ring - 1) edge elements and one corner '
-                'element must add up to the boundary the walk ends on (%s); '
-                'residual %r -- the corner length must be the one of the '
-                'outer face of the outermost duct' % (
-                    _s(ends[0].value), H.reduce_r3(total - end).n),
-                key=fi.full + ' | walk closes')
-    ctx.require(H.is_zero(end - c(6) * H.F(last, 1) / H.R3), 'C10.R4', fi,
-                ends[0], 'the walk ends at the perimeter of the outermost '
-                'duct outer face, 6 / sqrt3 x duct_ftf[-1][1]',
-                key=fi.full + ' | perimeter')
+    """Decided on values by the perimeter-vector evaluator shared with
+    C07.R7 (rules/_f_c07.py): the element widths -- wherever they are taken
+    from -- must evaluate to pin pitch / 2 x corner length of the outermost
+    duct's outer face, start with the top corner element and close on
+    6 / sqrt3 x outer flat-to-flat."""
+    from . import _f_c07
+    _f_c07.check(ctx, 'C10.R4')
 
 
 # ---------------------------------------------------------------------------
